@@ -443,3 +443,44 @@ Print Assumptions c01_bounded_response.
 Print Assumptions c01_bounded_response_idle.
 Print Assumptions c01_instance_bounded_response.
 Print Assumptions c01_instance_bounded_response_from.
+
+(* ====================================================================================================== *)
+(* FROM THE API: ingestion (Model/Provider.v, C13) composed with the bounded response.                    *)
+(* ====================================================================================================== *)
+(* "Eligible FIRING alerts": an alert POSTed to /api/v2/alerts without an end time — whatever its start time, however
+   old — is handed to the subscribers firing until receive time + resolve_timeout (C13: c13_end_default_and_pushed,
+   for every reachable provider state, whatever else the batch contains, also when the label set was stored before),
+   so the group that receives it notifies integration i within (the armed deadline it meets) + (flush timeout),
+   provided that bound lies before receive time + resolve_timeout, the alert is not suppressed and the integration
+   accepts deliveries; heartbeats (re-POSTs) before the bound only push the end further (they satisfy [fair]). *)
+From AM Require Model.Provider Proofs.ProviderProofs Properties.C13.
+
+(* the group's copy of what the provider hands to its subscribers; x = the identity of the label set *)
+Definition group_alert (x : Z) (r : AlertMerge.alert) : alert :=
+  mkA x (AlertMerge.a_starts r) (AlertMerge.a_ends r) (AlertMerge.a_updated r).
+
+Theorem c01_posted_firing_alert_reaches_receiver (E : Provider.env) now ps b1 p b2 r cfg x i s h s' outs :
+  0 <= Provider.e_rt E -> ProviderProofs.reachable E now ps ->
+  Provider.valid_p (Provider.e_vname E) (Provider.e_vvalue E) now (Provider.e_rt E) p = true -> Provider.p_ends p = 0 ->
+  (forall q, In q b2 -> Provider.valid_p (Provider.e_vname E) (Provider.e_vvalue E) now (Provider.e_rt E) q = true ->
+             AlertMerge.a_labels (Provider.prep now (Provider.e_rt E) q) <> AlertMerge.a_labels (Provider.prep now (Provider.e_rt E) p)) ->
+  fst (Provider.post (Provider.e_vname E) (Provider.e_vvalue E) now (Provider.e_rt E) ps (b1 ++ p :: b2))
+      !! AlertMerge.a_labels (Provider.prep now (Provider.e_rt E) p) = Some r ->
+  let T := now + Provider.e_rt E - 1 in
+  run cfg s ((now, EInsert (group_alert x r)) :: h) = Some (s', outs) -> wf_state cfg s -> fair x i T h ->
+  (forall g c, s_group s = Some g -> In c (gr_alerts g) -> a_id c = x -> a_upd c <= now) ->
+  (forall g fl f, s_group s = Some g -> gr_flight g = Some fl -> In f (fl_all fl) -> f_id f = x -> f_res f = false) ->
+  flush_by cfg s now (group_alert x r) <= T -> (i < length (g_ints cfg))%nat -> 0 <= g_timeout cfg -> 0 <= g_wait cfg ->
+  flush_by cfg s now (group_alert x r) + g_timeout cfg < s_clock s' ->
+  notified x i outs \/ ever cfg (listed x i) s ((now, EInsert (group_alert x r)) :: h).
+Proof.
+  intros Hrt Hreach Hv He Hb2 Hr T Hrun Hwf Hfair Hold Hfl Hfb Hi Hto Hgw Hlt.
+  destruct (C13.c13_end_default_and_pushed E now ps b1 p b2 Hrt Hreach Hv He Hb2)
+    as (cur & r' & Hr' & _ & _ & Hends & Hupd & _).
+  rewrite Hr in Hr'. injection Hr' as <-.
+  eapply (c01_bounded_response cfg x i T s now (group_alert x r) h s' outs); eauto.
+  - right. cbn. unfold T. lia.
+  - intros g c Hg Hc Hid. cbn. rewrite Hupd. eapply Hold; eauto.
+Qed.
+
+Print Assumptions c01_posted_firing_alert_reaches_receiver.
